@@ -342,6 +342,42 @@ def check_error(err) -> tuple[str, str] | None:  # noqa: ANN001
     return None
 
 
+def check_error_source(err, src: str) -> tuple[str, str] | None:  # noqa: ANN001
+    """T5c: an error raised while scanning or parsing a source is positioned in THAT source (not
+    in a text that happened to be parsed earlier in the process)."""
+    tok = getattr(err, "token", None)
+    tsrc = getattr(tok, "source", None)
+    if tok is None or not isinstance(tsrc, str) or getattr(tok, "start", -1) < 0:
+        return None
+    if tsrc != src:
+        return ("error-position:token-of-another-source",
+                f"{type(err).__name__} {str(getattr(err, 'message', ''))[:60]!r}: its token (at {tok.start}) belongs to a text of "
+                f"{len(tsrc)} characters that is not the {len(src)}-character source being parsed: {tsrc[:40]!r}")
+    return None
+
+
+def check_error_template(err, root_src: str, templates: dict[str, str]) -> tuple[str, str] | None:  # noqa: ANN001
+    """T5b: the template an error names is the template its position is in (line and column are
+    read against the named template's text)."""
+    tok = getattr(err, "token", None)
+    tsrc = getattr(tok, "source", None)
+    name = getattr(err, "template_name", None)
+    if tok is None or not isinstance(tsrc, str) or getattr(tok, "start", -1) < 0:
+        return None
+    named = templates.get(str(name)) if name else None
+    if named is None:
+        named = root_src if not name or str(name) in ("", "<string>") else None
+    if named is None or named == tsrc:
+        return None
+    if tsrc == root_src and root_src not in templates.values():
+        # the root of these renders is an anonymous template (from_string): an error in its text
+        # has no name to carry, and the engine falls back to the template being rendered
+        return None
+    where = next((n for n, t in templates.items() if t == tsrc), "<root>" if tsrc == root_src else "?")
+    return ("error-position:names-another-template-than-its-token-is-in",
+            f"{type(err).__name__} names template {name!r} but its token lies in the text of {where!r}")
+
+
 class Runner:
     def __init__(self, ctx: Ctx, shorthand: bool = False):
         from liquid2.exceptions import LiquidError
@@ -380,7 +416,7 @@ class Runner:
             toks = env.tokenize(src)
         except self.LiquidError as e:
             ctx.count("lex_errors")
-            r = check_error(e)
+            r = check_error(e) or check_error_source(e, src)
             ctx.count("error_positions_checked")
             if r:
                 return r
@@ -406,7 +442,7 @@ class Runner:
             except self.LiquidError as e:
                 ctx.count("parse_errors")
                 ctx.count("error_positions_checked")
-                return check_error(e)
+                return check_error(e) or check_error_source(e, src)
             except Exception:  # noqa: BLE001
                 ctx.count("non_liquid_error_escapes_c02")
                 return None
@@ -427,7 +463,7 @@ class Runner:
                 except self.LiquidError as e:
                     ctx.count("render_errors")
                     ctx.count("error_positions_checked")
-                    return check_error(e)
+                    return check_error(e) or check_error_template(e, src, templates)
                 except Exception:  # noqa: BLE001
                     ctx.count("non_liquid_error_escapes_c02")
         return None
@@ -494,6 +530,8 @@ FRAGS = [
     "{{ cafe\u0301 }}", "{% assign e\u0301te\u0301 = cafe\u0301.cre\u0300me | fi\u0301ltre: cle\u0301: 1 %}",
     # loop interrupts where there is no loop, nested in other blocks
     "{% break %}", "{% continue %}",
+    # expressions that end too early (errors at end of input), next to unclosed blocks
+    "{% assign x = %}", "{{ a | }}", "{% for x in %}", "{{ a | f: }}", "{% if a == %}", "{% if a %}", "{% for i in a %}x", "{% capture c %}",
     # invalid escapes that are not the first character of their string segment
     "{{ 'ab\\qcd' }}", "{{ \"x\n  yz\\q\" }}", "{{ a['k\\q'] }}", "{{ 'a${b}cd\\q' }}", "{% assign s = \"two\nlines \\z\" %}",
     "{{ a[\"kk\\w\"].b }}", "{% liquid echo 'abc\\y' %}", "{{ 'x' | append: 'pq\\k' }}",
@@ -513,6 +551,8 @@ RENDER_ERRORS = [
     "{% unless false %}x{% case 1 %}{% when 1 %}\n{% continue %}{% endcase %}{% endunless %}",
     "{% render 'p' %}", "{% for i in xs %}{% render 'q' %}{% endfor %}", "{% capture c %}\n {% break %}{% endcapture %}",
     "{% liquid\nif true\n  break\nendif %}", "{% macro m %}a{% endmacro %}{% call m %}\n{% if 1 %}{% continue %}{% endif %}",
+    "{% include 'ib' %}", "x\n{% include 'ib' %}", "{% if 1 %}{% include 'ic' %}{% endif %}", "{% for i in xs %}{% render 'ie' %}{% endfor %}",
+    "{% include 'ie' %}", "{% extends 'mid' %}", "{% render 'leafy' %}", "{% include 'nest1' %}",
     "{{ 1 | divided_by: 0 }}", "a\n{{ nosuch | nofilter }}", "{% if 1 %}\n{{ 'x' | plus: }}{% endif %}", "{% include 'missing' %}",
     "{% for i in (1..2) %}\n {% include nosuch %}{% endfor %}", "{% assign x = 1 | modulo: 0 %}", "{{ xs | sort: 'k' | map: }}",
 ]
@@ -764,10 +804,29 @@ def run_shard(spec: dict[str, Any], ctx: Ctx) -> None:
         for _ in range(6 if tier == "quick" else 60):
             _undefined_positions(r, rng, ctx)
         # complete templates whose ERRORS are raised while rendering
-        tpls = {"p": "x\n{% if true %}{% break %}{% endif %}", "q": "{% unless a %}\n\t{% continue %}{% endunless %}"}
+        tpls = {"p": "x\n{% if true %}{% break %}{% endif %}", "q": "{% unless a %}\n\t{% continue %}{% endunless %}",
+                "ib": "\n\n  {% break %}", "ic": "line1\nline2\n{% if true %}\n {% continue %}{% endif %}",
+                "ie": "a\nb\n{{ 1 | divided_by: 0 }}", "base4": "l1\nl2\nl3\n{% block x required %}{% endblock %}",
+                "mid": "{% extends 'base4' %}\n{% block y %}{% endblock %}", "leafy": "{% extends 'mid' %}",
+                "nest1": "n\n{% include 'nest2' %}", "nest2": "\n\n\n{% include 'nosuchpartial' %}"}
         for body in RENDER_ERRORS:
             for pre in ("", "text\n", "{# c #}\r\n  ", "{% assign z = 1 %}\n\n"):
                 r.run(pre + body, {"xs": [1, 2]}, tpls, render=True)
+                ctx.count("render_error_sources")
+        # ... and inheritance chains whose templates are all NAMED, failing inside overriding blocks
+        chain = dict(tpls)
+        chain.update({
+            "kid": "{% extends 'base4' %}{% block x %}\n\n{{ 1 | divided_by: 0 }}{% endblock %}",
+            "kid2": "{% extends 'base5' %}{% block x %}k{% endblock %}{% block z %}\n{% include 'nosuch' %}{% endblock %}",
+            "base5": "l1\n{% block x %}{% endblock %}{% block z %}{% endblock %}",
+            "kid3": "{% extends 'mid2' %}{% block x %}{{ block.super }}{% endblock %}",
+            "mid2": "{% extends 'base5' %}\n\n{% block x %}{{ nosuch | nofilter }}{% endblock %}",
+            "kid4": "{% extends 'base5' %}{% block x %}\n {% break %}{% endblock %}",
+            "kid5": "{% extends 'base5' %}{% block z %}\n\n{% render 'ie' %}{% endblock %}",
+        })
+        for name in ("kid", "kid2", "kid3", "kid4", "kid5", "leafy"):
+            for tag in ("include", "render"):
+                r.run("top\n{% " + tag + " '" + name + "' %}", {"xs": [1]}, chain, render=True)
                 ctx.count("render_error_sources")
         ctx.sample({"kind": "fragments", "source": s})
 
